@@ -48,6 +48,7 @@ pub fn write_part(out: Option<&str>) {
             "stubs": c.stubs,
             "notes": c.notes,
             "solver_s": (c.solver_ms/10.0).round()/100.0,
+            "timeout_retries": c.retries,
             "wall_s": (c.t0.elapsed().as_secs_f64()*100.0).round()/100.0,
             "solvers": {"main": "z3 5.1.0 (z3-new -in)", "cross": if c.solvers.second.is_some() {"z3 4.8.12 + cvc5 1.0 (best effort)"} else {"none in this tier"}},
             "traces_validated_against_impl": c.traces_validated,
